@@ -114,8 +114,8 @@ func runC02(c *Ctx) {
 		{"manual.one.F2", one, vrt.Budget{F: 2}, cutw},
 		{"timeout.one.F2", one, vrt.Budget{F: 2}, env.FaultSet{Silent: true, SilentDrop: true, LostClose: true, OnlyTypes: map[byte]bool{env.PUBLISH: true, env.PUBREL: true}}},
 	}
-	if c.Thorough() {
-		fams = []fam{
+	if c.Thorough() { // after the quick families
+		fams = append(fams, []fam{
 			{"one.F4", one, vrt.Budget{F: 4}, cutw},
 			{"N2.F3", mixed, vrt.Budget{F: 3}, cut},
 			{"N3.F2", c02Workloads(3), vrt.Budget{F: 2}, cut},
@@ -124,7 +124,7 @@ func runC02(c *Ctx) {
 			{"timeout.one.F3", one, vrt.Budget{F: 3}, env.FaultSet{Silent: true, SilentDrop: true, LostClose: true, AckLost: true, OnlyTypes: map[byte]bool{env.PUBLISH: true, env.PUBREL: true}}},
 			{"timeout.N2.F2", mixed, vrt.Budget{F: 2}, env.FaultSet{Silent: true, SilentDrop: true, LostClose: true, OnlyTypes: map[byte]bool{env.PUBLISH: true, env.PUBREL: true}}},
 			{"manual.N2.F3", mixed, vrt.Budget{F: 3}, cut},
-		}
+		}...)
 	}
 	var sample *rcRun
 	for _, f := range fams {
@@ -273,22 +273,24 @@ func runC03(c *Ctx) {
 		{"N3.F2.pub", 3, []string{"p1"}, []byte{'N'}, vrt.Budget{F: 2}, cl},
 		{"manual.N2.F1", 2, []string{"p1", "p2", "sub"}, []byte{'B', 'N'}, vrt.Budget{F: 1}, cut},
 	}
+	quickN := len(fams) // the thorough tier runs the quick families first, unchanged, then the deeper ones
 	if c.Thorough() {
-		fams = []fam{
+		fams = append(fams, []fam{
 			{"N2.F2.all", 2, []string{"p0", "p1", "p2", "sub", "unsub"}, []byte{'B', 'S', 'N', 'O', 'H'}, vrt.Budget{F: 2}, cut},
 			{"N3.F2", 3, []string{"p0", "p1", "p2", "sub"}, []byte{'B', 'N', 'H'}, vrt.Budget{F: 2}, cl},
 			{"N3.F3.pub", 3, []string{"p1", "p2"}, []byte{'N'}, vrt.Budget{F: 3}, cl},
 			{"N2.F1.P2", 2, []string{"p1", "p2", "sub"}, []byte{'B', 'N'}, vrt.Budget{F: 1, P: 2, S: 1, Total: 3}, cl},
 			{"manual.N2.F2", 2, []string{"p0", "p1", "p2", "sub"}, []byte{'B', 'S', 'N', 'O'}, vrt.Budget{F: 2}, cut},
 			{"manual.N3.F1", 3, []string{"p1", "p2", "sub"}, []byte{'B', 'N'}, vrt.Budget{F: 1}, cl},
-		}
+		}...)
 	}
 	var sample *rcRun
-	for _, f := range fams {
+	for fi, f := range fams {
+		deep := fi >= quickN
 		wls := rcWorkloads(f.n, f.kinds, f.phases)
 		c.Bound(f.name, fmt.Sprintf("%d workloads (length<=%d over %v x phases %q, one submitting task); faults %+v; budget %s", len(wls), f.n, f.kinds, string(f.phases), f.faults, f.bound))
 		for _, reqs := range wls {
-			if len(reqs) < 2 || !c.Thorough() && !rcLateOnlyLast(reqs) {
+			if len(reqs) < 2 || !deep && !rcLateOnlyLast(reqs) {
 				continue
 			}
 			for _, sess := range rcSessionModes {
@@ -393,14 +395,14 @@ func runC12(c *Ctx) {
 		{"N2.F2", two, vrt.Budget{F: 2}, cut},
 		{"manual.one.F2", one, vrt.Budget{F: 2}, cut},
 	}
-	if c.Thorough() {
-		fams = []fam{
+	if c.Thorough() { // after the quick families
+		fams = append(fams, []fam{
 			{"manual.one.F3", one, vrt.Budget{F: 3}, cut},
 			{"manual.N2.F2", two, vrt.Budget{F: 2}, cut},
 			{"one.F4", one, vrt.Budget{F: 4}, cut},
 			{"N2.F3", two, vrt.Budget{F: 3}, cut},
 			{"N3.F2", rcWorkloads(3, []string{"p0", "p1", "p2"}, []byte{'S', 'N'}), vrt.Budget{F: 2}, cut},
-		}
+		}...)
 	}
 	var sample *rcRun
 	for _, f := range fams {
